@@ -101,7 +101,10 @@ func (rn *runner) finding(kind, format string, a ...any) *simcore.Violation {
 	if simcore.IsKnown(key) || os.Getenv("PDB_ASSUME_KNOWN") != "" { // env: development aid only
 		rn.mu.Lock()
 		rn.res.KnownHit(key)
-		rn.stop = true
+		if kind == "flatten" || kind == "journal" {
+			// the failed mutation leaves the database where the model cannot follow
+			rn.stop = true
+		}
 		rn.mu.Unlock()
 		return nil
 	}
@@ -530,6 +533,17 @@ func (rn *runner) read(actor string, rd Read, certain bool) *simcore.Violation {
 	doneAtInv := rn.opDone
 	db := rn.w.db
 	rn.mu.Unlock()
+	if rn.scheduled {
+		// which write buffers sit between the layers and the disk right now
+		if info := db.VerifDisk(); !info.Stale {
+			if info.Frozen {
+				rn.probe("read-with-frozen-buffer")
+			}
+			if info.BufferLayers > 0 {
+				rn.probe("read-with-live-buffer")
+			}
+		}
+	}
 	root := st.root
 	k := &rn.p.K
 	a, s := rd.A%k.Accounts, 0
@@ -645,6 +659,11 @@ func (rn *runner) read(actor string, rd Read, certain bool) *simcore.Violation {
 					break
 				}
 				h, val := cur()
+				if len(val) == 0 && fin() != nil {
+					// the value accessor reports a stale stack by returning nil and
+					// setting the error: the entry was not delivered
+					break
+				}
 				itGot = append(itGot, [2][]byte{common.CopyBytes(h), val})
 				if len(itGot) > 4*maxAccounts {
 					break
@@ -683,6 +702,11 @@ func (rn *runner) read(actor string, rd Read, certain bool) *simcore.Violation {
 					break
 				}
 				h, val := cur()
+				if len(val) == 0 && fin() != nil {
+					// the value accessor reports a stale stack by returning nil and
+					// setting the error: the entry was not delivered
+					break
+				}
 				itGot = append(itGot, [2][]byte{common.CopyBytes(h), val})
 				if len(itGot) > 4*maxSlots {
 					break
@@ -778,6 +802,20 @@ func (rn *runner) read(actor string, rd Read, certain bool) *simcore.Violation {
 			return simcore.Violf(oracle, "%s: %s = %x, the state holds %x (the returned value belongs to: %s)", where, o.what, o.got, o.want, who)
 		}
 	}
+	if isIter && orphan && live {
+		// iterating a fork child of a flattened layer walks the stale pre-flatten
+		// objects: whatever goes wrong there belongs to the recorded finding
+		bad := itErr != nil || len(itGot) != len(itWant)
+		for i := 0; !bad && i < len(itGot); i++ {
+			bad = !eq(itGot[i][0], itWant[i][0]) || !eq(itGot[i][1], itWant[i][1])
+		}
+		if bad {
+			rn.mu.Unlock()
+			v := rn.finding("iterator", "%s seek=%d: the iterator yielded %d entries (error %v), the state has %d from the seek position; the layer is a fork child of a flattened layer and its parent pointer leads to the stale pre-flatten layers, whose write buffer is skipped silently", where, rd.Seek, len(itGot), itErr, len(itWant))
+			rn.mu.Lock()
+			return v
+		}
+	}
 	if isIter {
 		for i, g := range itGot {
 			if i >= len(itWant) {
@@ -815,6 +853,9 @@ func (rn *runner) sweepAll(actor string) *simcore.Violation {
 	n := len(rn.m.order)
 	rn.mu.Unlock()
 	for i := 0; i < n; i++ {
+		if rn.failed() {
+			return nil
+		}
 		if v := rn.read(actor, Read{Root: 2 * i, Kind: 3}, true); v != nil {
 			return v
 		}
